@@ -287,7 +287,10 @@ def build_args(mk: Maker, qual, pnames, fn_sig):
         elif name == "laser":
             vals[name] = rng.choice([mk.laser, mk.srrlaser])()
         elif name == "offsets":
-            vals[name] = [(0, 0), (1, 1)] if "overlap" in short else rng.choice([[(0, 0), (1, 1)], [(1, 2), (2, 2)], [0, 1]])
+            if "overlap" in short:  # one offset per array, any sign, the per-axis minimum mostly not zero
+                vals[name] = [(0, 0), (1, 1)] if rng.random() < 0.2 else [(rng.randint(-2, 3), rng.randint(-2, 3)) for _ in range(2)]
+            else:
+                vals[name] = rng.choice([[(0, 0), (1, 1)], [(1, 2), (2, 2)], [0, 1]])
         elif name == "elements":
             vals[name] = ["A", "B"]
         elif name == "element":
@@ -359,6 +362,72 @@ def build_args(mk: Maker, qual, pnames, fn_sig):
         else:
             raise KeyError(f"no factory for {qual}({name}: {ann})")
     return vals
+
+
+# ----------------------------------------------------------------------------- general variation of the built arguments
+def _numeric_rows(v):
+    """a list / tuple of numbers, or of equally long tuples / lists of numbers"""
+    num = (int, float, np.integer, np.floating)
+    if not isinstance(v, (list, tuple)) or not v:
+        return False
+    if all(isinstance(x, num) and not isinstance(x, bool) for x in v):
+        return True
+    return all(isinstance(x, (list, tuple)) and x and all(isinstance(y, num) and not isinstance(y, bool) for y in x) for x in v) \
+        and len({len(x) for x in v}) == 1
+
+
+def vary_arguments(mk: Maker, f, args):
+    """General input classes on top of what the factories build (feature names returned):
+    sequence-form:*   every list / tuple argument also as a tuple, a list, ONE ndarray (rows of numbers -> 2-d table, arrays
+                      of one shape -> stacked), or a list of 1-d arrays — the spellings NumPy-style code accepts alike;
+    scalars-from-data float parameters take values occurring in the first array argument (parameters named *min* its
+                      minimum, *max* its maximum, others one of minimum / maximum / first element): ranges the data spans
+                      exactly, thresholds that are attained;
+    defaults-used     parameters that have a default are left out, so the default object itself is what the body sees."""
+    rng, feats = mk.rng, set()
+    defaults = set(f.get("defaults", ()))
+    if rng.random() < 0.5:
+        for k, v in list(args.items()):
+            if k in ("self", "cls") or not isinstance(v, (list, tuple)) or not v:
+                continue
+            forms = ["same"]
+            if _numeric_rows(v):
+                forms += ["ndarray", "ndarray", "tuple" if isinstance(v, list) else "list", "arrays"]
+            elif all(isinstance(x, np.ndarray) for x in v):
+                forms += ["tuple" if isinstance(v, list) else "list"]
+                if len({(x.shape, str(x.dtype)) for x in v}) == 1:
+                    forms += ["ndarray", "ndarray"]
+            else:
+                forms += ["tuple" if isinstance(v, list) else "list"]
+            form = rng.choice(forms)
+            if form == "ndarray":
+                args[k] = np.array(v) if _numeric_rows(v) else np.stack(v)
+            elif form == "tuple":
+                args[k] = tuple(tuple(x) if isinstance(x, list) else x for x in v)
+            elif form == "list":
+                args[k] = [list(x) if isinstance(x, tuple) and _numeric_rows(v) else x for x in v]
+            elif form == "arrays":
+                args[k] = [np.array(x) for x in v]
+            if form != "same":
+                feats.add("sequence-form:" + form)
+    arrs = [v for k, v in args.items() if k != "self" and isinstance(v, np.ndarray) and v.dtype.kind == "f" and v.size
+            and not v.dtype.names]
+    if arrs and rng.random() < 0.25:
+        a = arrs[0]
+        fin = a[np.isfinite(a)]
+        if fin.size:
+            lo, hi, first = float(fin.min()), float(fin.max()), float(fin.flat[0])
+            for k, v in list(args.items()):
+                ann = (f["sig"].get(k) or "")
+                if isinstance(v, float) and ann.replace(" ", "").startswith("float") and not isinstance(v, bool):
+                    args[k] = lo if "min" in k else hi if "max" in k else rng.choice([lo, hi, first])
+                    feats.add("scalars-from-data")
+    if defaults and rng.random() < 0.35:
+        for k in list(args):
+            if k in defaults and rng.random() < 0.6:
+                del args[k]
+                feats.add("defaults-used")
+    return feats
 
 
 # ----------------------------------------------------------------------------- the I/O readers and the peak finder
@@ -824,11 +893,25 @@ class C19(Prop):
             for q, mod, fn, ck, ctor in T.inventory(prog):
                 n, pnames, ir = tr.translate(mod, fn, ck, ctor)
                 sig = {nm: a for nm, a in T.Translator.param_names(fn)}
+                fa = fn.args
+                defaults = [x.arg for x in (fa.posonlyargs + fa.args)[len(fa.posonlyargs + fa.args) - len(fa.defaults):]] + \
+                    [x.arg for x, dv in zip(fa.kwonlyargs, fa.kw_defaults) if dv is not None]
                 # what each annotation claims (asserted on the arguments the factories build, see `check_annotations`)
                 types = {nm: T.annotation_type(prog, mod, a) for nm, a in sig.items() if a is not None}
                 inv[q] = {"name": q, "np": n, "params": pnames, "ir": ir, "diag": list(tr.diag), "sig": sig, "module": mod,
-                          "kind": "constructor" if ctor else ("method" if ck else "function"), "types": types}
+                          "kind": "constructor" if ctor else ("method" if ck else "function"), "types": types,
+                          "defaults": defaults}
             inv["__plain_fields__"] = [[k[0], k[1], f, t] for (k, f), t in sorted(prog.plain_fields.items())]
+            hidx = {}
+            for mod_ in T.INVENTORY_MODULES:
+                for node in (prog.mods[mod_].body if mod_ in prog.mods else ()):
+                    if type(node).__name__ == "ClassDef" and not node.name.startswith("_"):
+                        producers, members = T.class_members(prog, (mod_, node.name))
+                        for pr in producers:
+                            q = f"{mod_}.{node.name}" + ("" if pr[0] == "init" else f".{pr[2].name}")
+                            hidx[q] = {"class": f"{mod_}.{node.name}", "members": [m[0] for m in members],
+                                       "kinds": [m[3] for m in members]}
+            inv["__histories__"] = hidx
             # the Lean analysis of every regenerated program, once per run (the driver evaluates `Pew.Effects.ana`)
             d = core.Driver()
             try:
@@ -847,6 +930,81 @@ class C19(Prop):
 
     def funcs(self):
         return {k: v for k, v in self.inv().items() if not k.startswith("__")}
+
+    # ------------------------------------------------------------------ call histories on one object (static)
+    def history_index(self):
+        """{producer qualified name: {"class", "members": [qualified names], "kinds"}} for every public class of the
+        inventoried modules: its constructor and classmethod constructors, and what can be called on an exact instance"""
+        if getattr(self, "_hidx", None) is None:
+            self._hidx = self.inv()["__histories__"]
+        return self._hidx
+
+    def _translator(self):
+        if getattr(self, "_tr", None) is None:
+            prog = T.Program(core.REPO, T.INVENTORY_MODULES)
+            tr = T.Translator(prog)
+            tr.infer_plain_fields()
+            self._tr = (prog, tr)
+        return self._tr
+
+    def history_report(self, producer, driver=None):
+        """the regenerated history program of one producer, analysed by the driver: which parameters of the history
+        (constructor arguments and arguments of later method calls) may be written by SOME call history on the object
+        (`Pew.Effects.history`, theorem `history_write_sound`), which the built object may retain (`retention_sound`),
+        and — when something is reported — by which two-call history `construct; method` (`twoCall_write_sound`).
+        Computed once per run and producer (whichever process needs it first), shared through the run's temp dir."""
+        import json
+        import os
+
+        cache = getattr(self, "_hrep", None)
+        if cache is None:
+            cache = self._hrep = {}
+        if producer in cache:
+            return cache[producer]
+        base = os.environ.get("PEWVERIF_TMPBASE")
+        fpath = Path(base) / ("c19-history-" + producer.replace(".", "_") + ".json") if base and os.path.isdir(base) else None
+        if fpath is not None and fpath.exists():
+            cache[producer] = json.loads(fpath.read_text())
+            return cache[producer]
+        prog, tr = self._translator()
+        cls_q = self.history_index()[producer]["class"]
+        key = (cls_q.rsplit(".", 1)[0], cls_q.rsplit(".", 1)[1])
+        producers, members = T.class_members(prog, key)
+        pr = next(x for x in producers if (cls_q if x[0] == "init" else f"{cls_q}.{x[2].name}") == producer)
+        h = tr.translate_history(key, pr, members)
+        own = driver is None
+        d = core.Driver() if own else driver
+        try:
+            rep = d.call("c19.history", np=h["np"], ctor=h["ctor"], methods=h["methods"])
+            ret = d.call("c19.retained", np=h["np"], ctor=h["ctor"], x=h["obj"], t=h["tmp"])
+            two = d.call("c19.two_call", np=h["np"], ctor=h["ctor"], methods=h["methods"])["two_call"] if rep["write"] else []
+        finally:
+            if own:
+                d.close()
+        params = [list(x) for x in h["params"]]
+        out = {"producer": producer, "class": cls_q, "np": h["np"], "params": params, "members": [m[0] for m in members],
+               "write": rep["write"], "top": rep["top"], "retained": ret["retained"],
+               "two_call": {members[j][0]: w for j, w in enumerate(two) if w}, "diag": h["diag"]}
+        out = json.loads(json.dumps(out))
+        if fpath is not None:
+            tmp = fpath.with_suffix(f".{os.getpid()}.tmp")
+            tmp.write_text(json.dumps(out))
+            os.replace(tmp, fpath)
+        cache[producer] = out
+        return out
+
+    @staticmethod
+    def history_broken(rep):
+        """the parameters of a history that may be written although nothing allows it: "owner(param)" labels.
+        A parameter the single-call rules let its own call write (ALLOWED_WRITES, or a `write` waiver of UNPROVED_STATIC:
+        an open file's position) is not a caller-owned array / list / dict."""
+        out = []
+        for i in rep["write"]:
+            owner, pname = rep["params"][i]
+            if (owner, pname) in ALLOWED_WRITES or static_waived(owner, pname, "write"):
+                continue
+            out.append(f"{owner}({pname})")
+        return out
 
     def extra_evidence(self):
         """the per-(function, parameter) obligations computed by the Lean analysis on the regenerated IR"""
@@ -879,6 +1037,20 @@ class C19(Prop):
             for cid in REG.all_ids():
                 reg_fail += REG.check(cid, d)
             nreg = len(REG.all_ids())
+            # call histories: one obligation per (producer, parameter of the history program)
+            hn = hok = 0
+            hbroken, retained, hunknown = [], {}, []
+            for prod in sorted(self.history_index()):
+                rep = self.history_report(prod, d)
+                bad = set(self.history_broken(rep))
+                for o, pn in rep["params"]:
+                    hn += 1
+                    hok += f"{o}({pn})" not in bad
+                hbroken += [f"{prod}: {b} (two-call: {sorted(k.split('.')[-1] for k, v in rep['two_call'].items())})" for b in sorted(bad)]
+                retained[prod] = [rep["params"][i][1] for i in rep["retained"] if rep["params"][i][0] == prod]
+                hunknown += [f"{prod}: {x}" for x in rep["diag"] if "UNKNOWN HISTORY" in x]
+            n += hn
+            ok += hok
         finally:
             d.close()
         return {"obligations": n, "discharged": ok,
@@ -890,9 +1062,18 @@ class C19(Prop):
                              "translator_regression_failures": reg_fail[:50],
                              "allowed_writes": [f"{k[0]}({k[1]}) [{v[0]}]: {v[1]}" for k, v in sorted(ALLOWED_WRITES.items())],
                              "fields_typed_plain": len(self.inv()["__plain_fields__"]),
+                             "history_programs": len(self.history_index()), "history_parameter_obligations": hn,
+                             "history_obligations_broken": hbroken[:50], "history_programs_unknown": hunknown[:20],
+                             "constructor_retained_parameters": retained,
                              "translator_unknown_calls": sorted(set(unknown_calls))[:50]}}
 
     def targeted(self, tier):
+        # call histories on one object: the static obligation of every producer (constructor / classmethod constructor)
+        # first — the history programs are the largest analyses of the run, the workers share the results — the classes
+        # with the most members first
+        hidx = self.history_index()
+        for prod in sorted(hidx, key=lambda q: (-len(hidx[q]["members"]) * (3 if "imzml" in q else 1), q)):
+            yield {"hist": prod, "calls": [], "aseed": 0}
         # the translator's soundness / precision regression cases (harness/effects/tests): a failed one is a broken tie
         for cid in REG.all_ids():
             yield {"regress": cid}
@@ -907,8 +1088,20 @@ class C19(Prop):
         for name in sorted({k[0] for k in UNPROVED_STATIC} & set(self.funcs())):
             for a in range(1, 25 if tier == "quick" else 150):
                 yield {"func": name, "aseed": a}
+        # every two-call history `construct; member` run for real (mutators and setters with more argument seeds)
+        for prod, h in sorted(self.history_index().items()):
+            for m, kind in zip(h["members"], h["kinds"]):
+                many = m.split(".")[-1] in self.MUTATING_MEMBERS or kind == "setter"
+                for a in range(0, (4 if tier == "quick" else 12) if many else 1):
+                    yield {"hist": prod, "calls": [m], "aseed": a}
 
     def generate(self, rng, tier):
+        if rng.random() < 0.2:  # a longer call history on one object
+            hidx = self.history_index()
+            prod = rng.choice(sorted(p for p, h in hidx.items() if h["members"]))
+            ms = hidx[prod]["members"]
+            return {"hist": prod, "calls": [rng.choice(ms) for _ in range(rng.choice([1, 2, 2, 3, 3, 4]))],
+                    "aseed": rng.randint(1, 10 ** 6)}
         names = sorted(self.funcs())
         name = rng.choice(names)
         case = {"func": name, "aseed": rng.randint(1, 10 ** 6)}
@@ -934,6 +1127,18 @@ class C19(Prop):
                     suspects.append(name)
         finally:
             d.close()
+        # call histories whose static obligation is broken: the two-call histories the analysis names, then longer ones
+        hsus = []
+        for prod, h in sorted(self.history_index().items()):
+            rep = self.history_report(prod)
+            if self.history_broken(rep):
+                hsus.append((prod, [m for m in h["members"] if m in rep["two_call"]] or h["members"], h["members"]))
+        for s in range(60 if tier == "quick" else 200):
+            for prod, ms, allm in hsus:
+                for m in ms:
+                    yield {"hist": prod, "calls": [m], "aseed": 10 ** 6 + 1 + s}
+                yield {"hist": prod, "calls": [allm[(s + j) % len(allm)] for j in range(1 + s % 3)] + [ms[s % len(ms)]],
+                       "aseed": 10 ** 6 + 1 + s}
         per = max(40, (1500 if tier == "quick" else 6000) // max(1, len(suspects)))
         for s in range(per):
             for name in suspects:
@@ -1015,6 +1220,8 @@ class C19(Prop):
 
         if "regress" in case:
             return self.evaluate_regression(case, ctx)
+        if "hist" in case:
+            return self.evaluate_history(case, ctx)
         inv = self.funcs()
         if case["func"] not in inv:
             # the function no longer exists (inventory is derived from the modules themselves): nothing to observe
@@ -1045,6 +1252,8 @@ class C19(Prop):
             except KeyError as e:
                 raise core.InternalError(str(e))
             args = self.paths(name, args, mk, tmp)
+            if case["aseed"] != 0:
+                feats |= vary_arguments(mk, f, args)
             if case.get("overlap"):
                 overlaps = self.make_overlap(f, args, mk)
             wrong = self.check_annotations(f, args)
@@ -1082,6 +1291,12 @@ class C19(Prop):
             for k, v in args.items():
                 if observe.shares(result, v):
                     aliased.append(k)
+            # ... "so editing a result does not alter the argument it was computed from", literally: overwrite everything
+            # reachable from the result, look at the arguments, put everything back
+            edited = observe.edit_and_restore(result, lambda: sorted(k for k in args if snap(args[k]) != after[k]))
+            if edited:
+                feats.add("result-edit-reaches-argument")
+            aliased += [k for k in edited if k not in aliased]
         # a documented mutator may change its argument in any way; an object-state setter only the attribute bindings of
         # its receiver, never an array / list / dict that was reachable from any argument when the call started
         bad_changed = sorted({p for p in changed if not dyn_write_allowed(name, p)}
@@ -1118,6 +1333,125 @@ class C19(Prop):
         model["unpredicted"] = unpredicted
         return outcome(impl, model, spec, spec_ok=(not bad_changed and not bad_aliased), model_ok=model_ok,
                        features=feats if "has-mutable-arg" in feats else [], note=note)
+
+    # ------------------------------------------------------------------ call histories on one object (dynamic)
+    MUTATING_MEMBERS = ("add", "remove", "rename")
+
+    @staticmethod
+    def fit_to_receiver(obj, member, args, mk):
+        """arguments of a later call that must match the object built earlier (the new element's shape)"""
+        if member.split(".")[-1] == "add" and "data" in args:
+            data = getattr(obj, "data", None)
+            if isinstance(data, np.ndarray):
+                args["data"] = mk.arr(data.shape[:2], nan=0)
+            elif isinstance(data, (list, tuple)) and data and all(isinstance(x, np.ndarray) for x in data):
+                args["data"] = [mk.arr(x.shape, nan=0) for x in data]
+
+    def evaluate_history(self, case, ctx):
+        """construct an object from caller-owned containers, keep deep snapshots AND identities of everything passed,
+        run the named methods on the object one after the other (arguments from the factories, also kept), and compare
+        every caller-owned container after every step: values, and which object sits in which slot.  The static
+        obligation of the producer's history program (`history_report`) is the model side."""
+        import logging
+        import random
+        import warnings
+
+        inv, hidx = self.funcs(), self.history_index()
+        prod, calls = case["hist"], list(case["calls"])
+        if prod not in hidx or prod not in inv or any(c not in inv or c not in hidx[prod]["members"] for c in calls):
+            return outcome({"absent": True}, {"absent": True}, {"absent": True}, features=[])
+        rep = self.history_report(prod, ctx.driver)
+        broken = self.history_broken(rep)
+        predicted = {f"{o}({n})" for o, n in (rep["params"][i] for i in rep["write"])} | \
+            ({f"{o}({n})" for o, n in rep["params"]} if rep["top"] else set())
+        model = {"history_write_outside_allowed": broken}
+        rng = random.Random(f"c19h:{prod}:{'|'.join(calls)}:{case['aseed']}")
+        tmp = ctx.tmpdir()
+        mk = Maker(rng, tmp)
+        feats = {"history:%d-calls" % len(calls), "history-producer:" + inv[prod]["kind"]}
+        warnings.simplefilter("ignore")
+        np.seterr(all="ignore")
+        logging.disable(logging.CRITICAL)
+        owned, changed_at, steps, raised_at = [], {}, [], []
+
+        def keep(owner, args):
+            for k, v in args.items():
+                if k not in ("self", "cls"):
+                    owned.append((f"{owner}({k})", v, snap(v), observe.inner_snapshot(v), observe.identity_snapshot(v)))
+
+        def compare(step):
+            for label, v, deep, inner, ident in owned:
+                if label not in changed_at and (snap(v) != deep or observe.inner_changed(inner) or observe.identity_changed(ident)):
+                    changed_at[label] = step
+
+        def build(name, pnames):
+            f = inv[name]
+            mk.tmp = tmp / f"step{len(owned)}-{len(steps)}"  # the synthetic files of each call in a directory of their own
+            mk.tmp.mkdir(exist_ok=True)
+            try:
+                a = build_new_args(mk, name, pnames, f["sig"]) if name.startswith(NEW_MODULES) else build_args(mk, name, pnames, f["sig"])
+            except KeyError as e:
+                raise core.InternalError(str(e))
+            a = self.paths(name, a, mk, mk.tmp)
+            if case["aseed"] != 0:
+                feats.update(x for x in vary_arguments(mk, f, a))
+            wrong = self.check_annotations(f, a)
+            if wrong:
+                raise core.InternalError(f"argument factory of {name} contradicts an annotation the translator trusts: {wrong}")
+            return a
+        saved_perm = np.random.get_state()
+        np.random.seed(rng.randint(0, 2 ** 31 - 1))
+        try:
+            fp = inv[prod]
+            pargs = build(prod, [p for p in fp["params"] if p not in ("self", "cls")])
+            for v in pargs.values():
+                if isinstance(v, (list, tuple, dict, np.ndarray)):
+                    feats.add("history:caller-" + type(v).__name__)
+            keep(prod, pargs)
+            obj = None
+            try:
+                obj = self.invoke(prod, fp["kind"], dict(pargs))
+            except Exception as e:
+                raised_at.append(0)
+            compare(0)
+            steps.append(prod)
+            if obj is not None:
+                for i, c in enumerate(calls, start=1):
+                    fc = inv[c]
+                    margs = build(c, [p for p in fc["params"] if p not in ("self", "cls")])
+                    self.fit_to_receiver(obj, c, margs, mk)
+                    keep(c, margs)
+                    try:
+                        r = self.invoke(c, fc["kind"], dict(margs, self=obj))
+                        if inspect.isgenerator(r):
+                            list(r)
+                    except Exception:
+                        raised_at.append(i)
+                    compare(i)
+                    steps.append(c)
+                    if c.split(".")[-1] in self.MUTATING_MEMBERS or c.endswith(".setter"):
+                        feats.add("history:mutator-or-setter-call")
+        finally:
+            np.random.set_state(saved_perm)
+            logging.disable(logging.NOTSET)
+            for h in mk.handles:
+                h.close()
+        if raised_at:
+            feats.add("history:a-call-raised")
+        bad = sorted(changed_at)
+        impl = {"caller_owned_changed": [f"{k} after step {changed_at[k]} ({steps[changed_at[k]].split('.')[-1]})" for k in bad],
+                "calls_made": len(steps)}
+        spec = {"caller_owned_changed": [], "calls_made": len(steps)}
+        unpredicted = [k for k in bad if k not in predicted]
+        model["unpredicted"] = unpredicted
+        note = ""
+        if unpredicted:
+            note = f"dynamic effect of a call history not predicted by the analysis of the history program: {unpredicted}"
+        elif broken:
+            note = (f"history obligation broken: after {prod}(...) some sequence of method calls may write {broken}"
+                    f" (two-call histories: { {k.split('.')[-1]: [rep['params'][i][1] for i in v] for k, v in rep['two_call'].items()} });"
+                    f" the object may retain {[rep['params'][i][1] for i in rep['retained'] if rep['params'][i][0] == prod]}")
+        return outcome(impl, model, spec, spec_ok=not bad, model_ok=not broken and not unpredicted, features=feats, note=note[:1500])
 
     def paths(self, name, args, mk, tmp):
         """replace the PATH placeholders by real files / destinations under the private temp dir"""
@@ -1178,6 +1512,9 @@ class C19(Prop):
     def shrink(self, case):
         if "regress" in case:
             return
+        if "hist" in case:
+            for i in range(len(case["calls"])):
+                yield {**case, "calls": case["calls"][:i] + case["calls"][i + 1:]}
         if case["aseed"] != 0:
             yield {**case, "aseed": 0}
 
